@@ -65,7 +65,14 @@ fn on_label(label: &str) {
                     }
                 }
             }
-            if let Some((_, n)) = best { cb.order.push(n); }
+            // the shard name is the `name` field of the metadata document (the file name is a lossy encoding of it)
+            if let Some((_, stem)) = best {
+                let name = std::fs::read_to_string(dir.join(format!("{stem}.json"))).ok()
+                    .and_then(|c| serde_json::from_str::<serde_json::Value>(&c).ok())
+                    .and_then(|v| v.get("name").and_then(|n| n.as_str()).map(|x| x.to_string()))
+                    .unwrap_or(stem);
+                cb.order.push(name);
+            }
         }
     }
     if cb.count == cb.target {
